@@ -222,7 +222,10 @@ class StreamReaderBufferedProtocol(asyncio.BufferedProtocol):
 
     def get_buffer(self, sizehint: int) -> WriteableBuffer:
         if (external_buffer_view := self.__external_buffer_view) is not None:
-            return external_buffer_view
+            if (read_waiter := self.__read_waiter) is not None and not read_waiter.done():
+                return external_buffer_view
+            # The reader task has been cancelled but did not wake up yet. Its buffer must not be used anymore.
+            self.__external_buffer_view = None
         # Ignore sizehint, the buffer is already at its maximum size.
         # Returns unused buffer part
         if self.__buffer is None:
@@ -336,6 +339,10 @@ class StreamReaderBufferedProtocol(asyncio.BufferedProtocol):
                 self.__external_buffer_view = external_buffer
                 try:
                     nbytes_written_in_external_buffer = await self.__read_waiter
+                except asyncio.CancelledError:
+                    if external_buffer is not None:
+                        self.__keep_data_of_cancelled_read(self.__read_waiter, external_buffer)
+                    raise
                 finally:
                     self.__external_buffer_view = None
         finally:
@@ -344,6 +351,22 @@ class StreamReaderBufferedProtocol(asyncio.BufferedProtocol):
         if nbytes_written_in_external_buffer is None:
             self._check_for_connection_lost()
         return nbytes_written_in_external_buffer
+
+    def __keep_data_of_cancelled_read(self, read_waiter: asyncio.Future[int | None], external_buffer: WriteableBuffer) -> None:
+        # The event loop may have already filled the external buffer before the cancellation has been delivered to the task.
+        # Put these bytes back in front of the internal buffer so the next read will get them.
+        if not read_waiter.done() or read_waiter.cancelled() or read_waiter.exception() is not None:
+            return
+        nbytes = read_waiter.result()
+        if not nbytes or self.__buffer is None:
+            return
+        with memoryview(external_buffer) as external_buffer_view:
+            nbytes_written = self.__buffer_nbytes_written
+            if nbytes_written:
+                self.__buffer_view[nbytes : nbytes + nbytes_written] = bytes(self.__buffer_view[:nbytes_written])
+            self.__buffer_view[:nbytes] = external_buffer_view[:nbytes]
+            self.__buffer_nbytes_written = nbytes_written + nbytes
+        self._maybe_pause_transport()
 
     def _read_waiter_fut(self, set_result_cb: Callable[[asyncio.Future[int | None]], None]) -> None:
         if (waiter := self.__read_waiter) is not None:
